@@ -24,6 +24,7 @@ func main() {
 	verbose := flag.Bool("v", false, "print every obligation")
 	dumpFuncs := flag.Bool("dump-funcs", false, "print the canonical names of all repository functions (used to regenerate the known-function table)")
 	noInline := flag.Bool("no-inline", false, "do not inline unknown helper functions")
+	dumpSSA := flag.String("dump-ssa", "", "print the normalised SSA of the functions whose canonical name contains this string (debugging)")
 	flag.Parse()
 	if *dumpFuncs {
 		p := engine.Load(*repo)
@@ -32,7 +33,7 @@ func main() {
 		}
 		return
 	}
-	if *prop == "" {
+	if *prop == "" && *dumpSSA == "" {
 		fmt.Fprintln(os.Stderr, "usage: abcheck -property Cnn [-tier quick|thorough] [-repo dir] [-out dir] [-v]")
 		os.Exit(2)
 	}
@@ -52,12 +53,38 @@ func main() {
 	}()
 	started := time.Now()
 	p := engine.Load(*repo)
-	var inlined []string
+	var inlined, unrolled []string
 	if !*noInline {
-		inlined = p.InlineUnknown(rules.KnownFuncs)
+		inlined, unrolled = p.Normalise(rules.KnownFuncs, rules.KeepRole)
 		if len(inlined) > 0 {
 			fmt.Printf("note: %d call(s) of helper functions unknown to the rules were inlined before analysis: %s\n", len(inlined), strings.Join(dedup(inlined), "; "))
 		}
+		if len(unrolled) > 0 {
+			fmt.Printf("note: literal tables were resolved before analysis: %s\n", strings.Join(unrolled, "; "))
+		}
+	}
+	var invalid []string
+	if len(inlined) > 0 || len(unrolled) > 0 {
+		for _, fn := range p.AllFuncs {
+			if fn.Blocks == nil {
+				continue
+			}
+			engine.Renumber(fn)
+			if err := engine.ValidateSSA(fn); err != nil {
+				invalid = append(invalid, engine.FuncName(fn)+": "+err.Error())
+			}
+		}
+		if len(invalid) > 0 {
+			fmt.Printf("note: internal: normalisation left inconsistent SSA: %s\n", strings.Join(invalid, "; "))
+		}
+	}
+	if *dumpSSA != "" {
+		for _, fn := range p.AllFuncs {
+			if strings.Contains(engine.FuncName(fn), *dumpSSA) {
+				fn.WriteTo(os.Stdout)
+			}
+		}
+		return
 	}
 	var ids []string
 	if *prop == "all" {
@@ -81,6 +108,10 @@ func main() {
 		}
 		rep := engine.NewReport(p, id, *tier)
 		rep.Extra["inlined_unknown_helpers"] = dedup(inlined)
+		rep.Extra["unrolled_table_loops"] = unrolled
+		if len(invalid) > 0 {
+			rep.Extra["normalisation_inconsistencies"] = invalid
+		}
 		func() {
 			defer func() {
 				if r := recover(); r != nil {
